@@ -622,7 +622,39 @@ func evalLookup(c Case) evid.Verdict {
 			}
 		}
 	}
+	// realm names are case-sensitive (two realms may differ in nothing else): a spelling that is not a configured realm
+	// has no servers, whatever other realm it resembles
+	configured := map[string]bool{}
+	for _, er := range p.exp.Realms {
+		configured[er.Name] = true
+	}
+	for _, er := range p.exp.Realms {
+		for _, name := range []string{strings.ToUpper(er.Name), strings.ToLower(er.Name), swapFirstLetter(er.Name), er.Name + ".", " " + er.Name} {
+			if configured[name] || name == "" {
+				continue
+			}
+			if n, m, _ := cfg.GetKDCs(name, false); n != 0 || len(m) != 0 {
+				return evid.Fail("lookup:unconfigured-realm:GetKDCs", "GetKDCs(%q) returns %d servers %v, but no realm of that name is configured (it resembles %q)\n--- file ---\n%s", name, n, m, er.Name, p.text)
+			}
+			if n, m, _ := cfg.GetKpasswdServers(name, true); n != 0 || len(m) != 0 {
+				return evid.Fail("lookup:unconfigured-realm:GetKpasswdServers", "GetKpasswdServers(%q) returns %d servers %v, but no realm of that name is configured (it resembles %q)\n--- file ---\n%s", name, n, m, er.Name, p.text)
+			}
+		}
+	}
 	return evid.Pass()
+}
+
+// swapFirstLetter changes the case of the first letter of s.
+func swapFirstLetter(s string) string {
+	for i, r := range s {
+		switch {
+		case r >= 'a' && r <= 'z':
+			return s[:i] + string(r-32) + s[i+1:]
+		case r >= 'A' && r <= 'Z':
+			return s[:i] + string(r+32) + s[i+1:]
+		}
+	}
+	return s
 }
 
 // ---------------------------------------------------------------------------------------------
@@ -831,7 +863,7 @@ func TestProp(t *testing.T) {
 	})
 
 	// 5. KDC / kpasswd lookup
-	r.Rule("lookup: for every realm of a loaded model (no nested blocks, dns_lookup_kdc off) GetKDCs and GetKpasswdServers are called 24..32 times each (udp/tcp alternating): count = number configured, keys 1..count, values a permutation of the configured servers (default port 88 added to a KDC without port; kpasswd falls back to the admin_server hosts on port 464), error only when nothing is configured, and the Config deep-equals a copy taken before each call; non-trivial = a realm with >=2 KDCs")
+	r.Rule("lookup: for every realm of a loaded model (no nested blocks, dns_lookup_kdc off) GetKDCs and GetKpasswdServers are called 24..32 times each (udp/tcp alternating): count = number configured, keys 1..count, values a permutation of the configured servers (default port 88 added to a KDC without port; kpasswd falls back to the admin_server hosts on port 464), error only when nothing is configured, the Config deep-equals a copy taken before each call, and spellings of the realm's name that are not configured realms themselves (other letter case, trailing dot, leading blank) have no servers; realm names that differ only in letter case occur side by side; non-trivial = a realm with >=2 KDCs")
 	lg := lookupGrid()
 	evid.Parallel(len(lg), 16, func(i int) { judge("lookup-grid", lg[i], nil) })
 	r.Rapid("lookup", r.N(1200, 20000), func(t *rapid.T) {
